@@ -30,6 +30,11 @@ CORPUS = [
     {'name': '(repaired) exp(a[mV]/b[volt])', 'tree': [7, 0, [5, [3, 6], [6, [3, 3], [0, 0, F(-1)]]]]},
     {'name': 'piecewise condition a[mV] < t[ms]', 'tree': [13, [[3, 6], [9, 2, [3, 6], [3, 15]]], [[3, 6], [11]]]},
     {'name': 'exp(x) with initial value 1000', 'tree': [7, 0, [5, [0, 0, F(1000)], [3, 1]]]},
+    {'name': 'zero first: _0[mV] + t[ms]', 'tree': [4, Q(1, 0, 2), [3, 15]]},
+    {'name': 'zero first: Piecewise((_0[mV], a < a), (t[ms], True))',
+     'tree': [13, [Q(1, 0, 2), [9, 2, [3, 6], [3, 6]]], [[3, 15], [11]]]},
+    {'name': 'zero first: 0 + a[mV]', 'tree': [4, [0, 0, F(0)], [3, 6]]},
+    {'name': 'zero first, consistent: _0[mV] + a[mV]', 'tree': [4, Q(1, 0, 2), [3, 6]]},
     {'name': '1/floor(_0.5)', 'tree': [6, [7, 3, Q(1, F(1, 2))], [0, 0, F(-1)]]},
 ]
 
